@@ -150,26 +150,32 @@ def gen_seq(ctx):
 
 
 # ---------- library files ----------
-def write_tree(root, files, main):
+def write_tree(root, files, main, phys=None):
+    """files: logical name -> (groups, included logical names); phys: logical name -> path below root
+    (include entries are written relative to the including file, as the loader resolves them)"""
+    phys = phys or {n: n for n in files}
     if os.path.exists(root):
         shutil.rmtree(root)
     os.makedirs(root)
-    with open(os.path.join(root, 'scheme.yaml'), 'w') as f:
-        f.write('patterns: []\n')
+    for d in sorted(set(os.path.dirname(p) for p in phys.values())):
+        os.makedirs(os.path.join(root, d), exist_ok=True)
+        with open(os.path.join(root, d, 'scheme.yaml'), 'w') as f:
+            f.write('patterns: []\n')
     for name, (groups, incs) in files.items():
         out = []
+        here = os.path.dirname(phys[name])
         if incs:
             out.append('include:')
-            out += ['  - %s' % i for i in incs]
+            out += ['  - %s' % os.path.relpath(phys[i], here or '.') for i in incs]
         out.append('groups:')
         for g, p in groups:
             c = {'T_ref': p['T_ref'], 'H': p['H'], 'S': p['S'], 'Ts': p['Ts'], 'Cps': p['Cps'], 'range': p['range']}
             out.append("  '%s':\n    'thermochem':\n%s" % (g, thermogen.corr_yaml_nd(c)))
         if not groups:
             out[-1] = 'groups: {}'
-        with open(os.path.join(root, name), 'w') as f:
+        with open(os.path.join(root, phys[name]), 'w') as f:
             f.write('\n'.join(out) + '\n')
-    return os.path.join(root, main)
+    return os.path.join(root, phys[main])
 
 
 GROUPS = ['C(C)(H)3', 'C(C)2(H)2', 'O(C)(H)']
@@ -232,6 +238,16 @@ def gen_tree(ctx, idx):
         files = {n: (per[n], sh.get(n, [])) for n in names}
         root = os.path.join(vlib.WORK, 'c13_tree_%d_%d' % (idx, si))
         variants.append({'op': 'load_tree', 'path': write_tree(root, files, 'library.yaml'), 'files': files, 'kind': kind})
+    if len(names) == 4:
+        # the same tree spread over directories: two DIFFERENT files are included under the same relative string 'extra.yaml'
+        a, b, c = others
+        files = {'library.yaml': (per['library.yaml'], [a, b]), a: (per[a], []), b: (per[b], [c]), c: (per[c], [])}
+        phys = {'library.yaml': 'library.yaml', a: 'extra.yaml', b: 'sub/mid.yaml', c: 'sub/extra.yaml'}
+        root = os.path.join(vlib.WORK, 'c13_tree_%d_dirs' % idx)
+        variants.append({'op': 'load_tree', 'path': write_tree(root, files, 'library.yaml', phys), 'files': files, 'kind': kind})
+        files2 = {'library.yaml': (per['library.yaml'], [b, a]), a: (per[a], []), b: (per[b], [c]), c: (per[c], [])}
+        root = os.path.join(vlib.WORK, 'c13_tree_%d_dirs2' % idx)
+        variants.append({'op': 'load_tree', 'path': write_tree(root, files2, 'library.yaml', phys), 'files': files2, 'kind': kind})
     return variants
 
 
